@@ -376,7 +376,10 @@ func (m *lfsModule) handleHTTPProduce(w http.ResponseWriter, r *http.Request) {
 	}
 	defer func() { _ = backendConn.Close() }()
 
-	_, err = m.forwardToBackend(r.Context(), backendConn, payload)
+	respFrame, err := m.forwardToBackend(r.Context(), backendConn, payload)
+	if err == nil {
+		err = lfsCheckProduceAck(respFrame, reqHeader, topic, partition)
+	}
 	if err != nil {
 		m.metrics.IncRequests(topic, "error", "lfs")
 		m.trackOrphans([]orphanInfo{{Topic: topic, Key: objectKey, RequestID: requestID, Reason: "kafka_produce_failed"}})
@@ -1081,7 +1084,11 @@ func (m *lfsModule) handleHTTPUploadComplete(w http.ResponseWriter, r *http.Requ
 	}
 	defer func() { _ = backendConn.Close() }()
 
-	if _, err := m.forwardToBackend(r.Context(), backendConn, payload); err != nil {
+	respFrame, err := m.forwardToBackend(r.Context(), backendConn, payload)
+	if err == nil {
+		err = lfsCheckProduceAck(respFrame, reqHeader, session.Topic, session.Partition)
+	}
+	if err != nil {
 		m.trackOrphans([]orphanInfo{{Topic: session.Topic, Key: session.S3Key, RequestID: requestID, Reason: "kafka_produce_failed"}})
 		m.tracker.EmitUploadFailed(requestID, session.Topic, session.S3Key, "backend_error", err.Error(), "kafka_produce", session.TotalUploaded, 0)
 		m.lfsWriteHTTPError(w, requestID, session.Topic, http.StatusBadGateway, "backend_error", err.Error())
